@@ -2,6 +2,8 @@ import UmProofs.CoordOrder
 import UmProofs.CoordMig
 import UmProofs.CoordCoherent
 import UmProofs.BrokerViewPartF
+import UmProofs.CoordDischarge
+import UmProps.C13
 /-!
 # C07 — the control plane converges despite message faults and coordinator crashes
 
@@ -23,6 +25,12 @@ call; rounds of other coordinators nest at call boundaries).
   after the destination's `set_cluster_meta` returned `Ok`.
 * `C07_coherent` — with C04's `EpochVersioning` as hypothesis: nothing a process holds and nothing a
   round ever sends is ahead of what the broker serves (older epoch, or same epoch and same content).
+* `C07_invariants_reachable`, `C07_epochVersioning`, `C07_commit_once_reachable`,
+  `C07_convergence_reachable`, `C07_reconverge_after_recovery` — the same with the broker-side hypotheses
+  discharged by C01 (store invariants, views never panic), C04 (`view_steps`), C10 (`commitInv_of_invs`) and C13
+  (recovered epochs exceed every proxy epoch); what remains is about the environment: the broker history stays
+  within `PlanBound`, every served address has a running, well-hosted process (`EnvOk`), `targets` is the
+  permutation the retriever produced.
 * `C07_convergence` — **K = 2** fault-free rounds (migration sync, then proxy sync) from any coherent
   state: every target process holds exactly `proxyView broker a limit` (same epoch, cluster map,
   replication map) and no polled running process reports a finished task that is still pending.
@@ -169,6 +177,86 @@ theorem C07_convergence (s : Sys) (hbag : s.bag = []) (hcoh : Coherent s)
       Committed.mono (s := s1) c1 (by rw [hs1]; exact m1.cinv) (by rw [hbroker]; exact CommitReach.refl) hle12
     exact c2
 
+/-! ## the broker-side hypotheses discharged -/
+
+/-- C04 ⇒ the hypothesis of `C07_coherent` / `C07_convergence` -/
+theorem C07_epochVersioning (limit : Nat) (compress : Bool) : EpochVersioning limit compress :=
+  epochVersioning_holds limit compress
+
+/-- every state of every execution (`SysReach`: rounds under any fault plan, flushes, bounded broker operations,
+spawn / kill / restart, migrations finishing) is coherent, only has served payloads in flight, and only reports
+tagged tasks -/
+theorem C07_invariants_reachable (s : Sys) (hs : SysReach s) : Coherent s ∧ BagProv s ∧ WellTagged s :=
+  ⟨(sysReach_inv hs).coh, (sysReach_inv hs).bag, (sysReach_inv hs).tag⟩
+
+/-- `C07_commit_once` on every boundedly reachable broker state -/
+theorem C07_commit_once_reachable {b s1 : Store} (hb : Um.Broker.Plan.ReachableB b) {name : String} {c : Cluster}
+    (hf : b.findCluster name = some c) {ranges : RangeList} {epoch : Nat}
+    (h : commitMigrationCore b name ranges epoch false = (s1, R.ok ())) :
+    commitMigrationCore s1 name ranges epoch false = (s1, R.err Err.migrationTaskNotFound) ∧
+    ¬ PendingIn s1 name ranges epoch ∧
+    statusOf Err.migrationTaskNotFound.code = Um.Gen.Coord.COMMIT_OK_STATUS :=
+  C07_commit_once hf (cinv_of_goodB (goodB_of_reachableB hb) name c hf) h
+
+/-- `C07_convergence` from any state of any execution in which nothing is in flight any more -/
+theorem C07_convergence_reachable (s : Sys) (hs : SysReach s) (hbag : s.bag = []) (henv : EnvOk s)
+    (targets : List String)
+    (hvalid : isPermStr targets
+      (retrieveOrdered noHook (RS.start (runRound0 s (ffRound .mig [])).1 (ffRound .sync targets))).2 = true) :
+    let s1 := (runRound0 s (ffRound .mig [])).1
+    let s2 := (runRound0 s1 (ffRound .sync targets)).1
+    (∀ a ∈ targets, ∀ v, proxyView s2.broker a s2.limit = R.ok (some v) →
+        ∃ p, s2.findP a = some p ∧ p.epoch = v.epoch ∧ p.cmeta = mkCMeta s2.compress v ∧
+          p.replEpoch = v.epoch ∧ p.repl = mkRMeta v) ∧
+    (∀ a ∈ (retrieveProxies noHook (RS.start s (ffRound .mig []))).2, ∀ p, s2.findP a = some p → p.up = true →
+        ∀ t ∈ p.finished, ¬ PendingIn s2.broker t.cluster t.sr.ranges (taskEpoch t)) := by
+  have inv := sysReach_inv hs
+  exact C07_convergence s hbag inv.coh (epochVersioning_holds _ _) (cinv_of_goodB inv.coh.reachable)
+    (allOk_of_env inv.coh.reachable henv) inv.tag targets hvalid
+
+/-- **C13 re-convergence.** The system was running (`s0`); the broker lost its state, came back from any
+boundedly reachable snapshot `snap` (however stale) and ran `recover_epoch` with `E` at least every epoch a proxy
+holds. Then every view it serves is newer than `E`, and K = 2 fault-free rounds make every target proxy hold
+exactly the recovered view. -/
+theorem C07_reconverge_after_recovery (s0 : Sys) (hs0 : SysReach s0) (snap : Store)
+    (hsnap : Um.Broker.Plan.ReachableB snap) (E : Nat)
+    (hE : ∀ a p, s0.findP a = some p → p.epoch ≤ E ∧ p.replEpoch ≤ E)
+    (henv : EnvOk { s0 with broker := Um.Broker.Epoch.serviceRecoverEpoch snap E, bag := [], served := [] })
+    (targets : List String)
+    (hvalid : isPermStr targets (retrieveOrdered noHook (RS.start
+      (runRound0 { s0 with broker := Um.Broker.Epoch.serviceRecoverEpoch snap E, bag := [], served := [] }
+        (ffRound .mig [])).1 (ffRound .sync targets))).2 = true) :
+    let s : Sys := { s0 with broker := Um.Broker.Epoch.serviceRecoverEpoch snap E, bag := [], served := [] }
+    let s1 := (runRound0 s (ffRound .mig [])).1
+    let s2 := (runRound0 s1 (ffRound .sync targets)).1
+    (∀ a v, proxyView s.broker a s.limit = R.ok (some v) → E < v.epoch) ∧
+    (∀ a ∈ targets, ∀ v, proxyView s2.broker a s2.limit = R.ok (some v) →
+        ∃ p, s2.findP a = some p ∧ p.epoch = v.epoch ∧ p.cmeta = mkCMeta s2.compress v ∧
+          p.replEpoch = v.epoch ∧ p.repl = mkRMeta v) := by
+  intro s s1 s2
+  have inv0 := sysReach_inv hs0
+  have hreach : Reachable (Um.Broker.Epoch.serviceRecoverEpoch snap E) :=
+    Um.Broker.C13.C13_recovered_reachable snap hsnap.reachable E
+  have hall : Um.Broker.Plan.AllCInv (Um.Broker.Epoch.serviceRecoverEpoch snap E) :=
+    storeInv_recoverEpoch snap _ (Um.Broker.Plan.cinv_reachableB snap hsnap)
+  have hgood : GoodB s.broker := ⟨hreach, hall⟩
+  have hviews := (Um.Broker.C13.C13_views_after_recovery snap hsnap.reachable E []).1
+  have hG := (Um.Broker.C13.C13_recover snap E).1
+  have hfind : ∀ a, s.findP a = s0.findP a := fun _ => rfl
+  have hcoh : Coherent s := by
+    refine ⟨hgood, (fun x hx => nomatch hx), ?_⟩
+    intro a p hp
+    have hp0 : s0.findP a = some p := hp
+    obtain ⟨h1, h2⟩ := hE a p hp0
+    refine ⟨⟨Nat.le_of_lt (Nat.lt_of_le_of_lt h1 hG), fun v hv => Or.inl ?_⟩,
+      ⟨Nat.le_of_lt (Nat.lt_of_le_of_lt h2 hG), fun v hv => Or.inl ?_⟩⟩
+    · exact Nat.lt_of_le_of_lt h1 (hviews a s.limit v hv)
+    · exact Nat.lt_of_le_of_lt h2 (hviews a s.limit v hv)
+  have htag : WellTagged s := fun x p hp t ht => inv0.tag x p hp t ht
+  have hconv := C07_convergence s rfl hcoh (epochVersioning_holds _ _) (cinv_of_goodB hgood)
+    (allOk_of_env hgood henv) htag targets hvalid
+  exact ⟨fun a v hv => hviews a s.limit v hv, hconv.1⟩
+
 /-! ## non-vacuity -/
 
 /-- the install rule accepts a newer view … -/
@@ -180,6 +268,10 @@ example : (((PState.fresh "h:1" "h").setCluster 5 false CMeta.empty).1.setCluste
 example : (((PState.fresh "h:1" "h").setCluster 5 false CMeta.empty).1.setCluster 3 true CMeta.empty).1.epoch = 3 := by
   decide
 example : (PState.fresh "h:1" "h").epoch = 0 := rfl
+
+/-- `SysReach` is inhabited by the empty system and closed under every event, so the `_reachable` theorems apply
+to every execution -/
+example : ∃ s, SysReach s ∧ s.bag = [] ∧ SysReach (s.spawn "h:1" "h") := ⟨_, SysReach.init 1 1 false, rfl, SysReach.spawn _ _ (SysReach.init 1 1 false)⟩
 
 /-- the worked example of C01 (two chunks, two migrations in flight) as a store -/
 def exStore : Store := { Store.init with globalEpoch := 7, clusters := [exCluster] }
